@@ -1079,6 +1079,9 @@ func (ev *Evaluator) instr(fr *frame, ins ssa.Instruction, st *State) {
 			fr.env[x] = &SliceV{Len: -1, Sym: &Sym{Path: "?slice", T: x.Type()}}
 		}
 	case *ssa.Lookup:
+		if _, isMap := x.X.Type().Underlying().(*types.Map); isMap {
+			ev.Events = append(ev.Events, Event{Callee: "maplookup", Args: []Val{fr.get(ev, x.X), fr.get(ev, x.Index)}, Pos: x.Pos(), State: st.clone(), Cond: ev.curCond})
+		}
 		fr.env[x] = symVal("lookup("+valKey(fr.get(ev, x.X))+","+valKey(fr.get(ev, x.Index))+")", x.Type())
 		if x.CommaOk {
 			fr.env[x] = &Tuple{Elems: []Val{symVal("lookup("+valKey(fr.get(ev, x.X))+","+valKey(fr.get(ev, x.Index))+")", x.Type().(*types.Tuple).At(0).Type()), A("ok?")}}
